@@ -121,12 +121,16 @@ pub unsafe extern "C" fn cg_realloc(p: *mut c_void, n: usize) -> *mut c_void {
     q
 }
 
-fn live_set() -> BTreeSet<usize> {
-    ledger().live.keys().copied().collect()
+/// identity of one allocation: (address, allocation sequence number) -- the
+/// address alone is reused by the allocator as soon as a block is freed
+type BlockId = (usize, u64);
+
+fn live_set() -> BTreeSet<BlockId> {
+    ledger().live.iter().map(|(p, b)| (*p, b.seq)).collect()
 }
 
-fn purge_to(base: &BTreeSet<usize>) {
-    let extra: Vec<usize> = ledger().live.keys().copied().filter(|p| !base.contains(p)).collect();
+fn purge_to(base: &BTreeSet<BlockId>) {
+    let extra: Vec<usize> = ledger().live.iter().filter(|(p, b)| !base.contains(&(**p, b.seq))).map(|(p, _)| *p).collect();
     for p in extra {
         ledger().live.remove(&p);
         unsafe { free(p as *mut c_void) };
@@ -238,11 +242,11 @@ struct Call {
     set: u64,
     args: Vec<Val>,
     result: Option<Val>,
-    base: BTreeSet<usize>,
+    base: BTreeSet<BlockId>,
     /// blocks allocated for arguments (host-made for exports, echo-made for imports)
-    a_blocks: BTreeSet<usize>,
+    a_blocks: BTreeSet<BlockId>,
     indirect_area: Option<usize>,
-    r_blocks: BTreeSet<usize>,
+    r_blocks: BTreeSet<BlockId>,
     tokens_before: Vec<Tok>,
     failed: bool,
     import_seen: bool,
@@ -353,8 +357,39 @@ pub extern "C" fn cg_put_u64(v: u64) {
 
 #[no_mangle]
 pub unsafe extern "C" fn cg_put_bytes(p: *const u8, n: usize) {
+    if n > 0 {
+        if let Err(e) = (GuestMem { trusted: vec![] }).check(p as usize as u64, n) {
+            h().obs.push(Tok::Bad(e));
+            return;
+        }
+    }
     let v = if n == 0 || p.is_null() { vec![] } else { std::slice::from_raw_parts(p, n).to_vec() };
     h().obs.push(Tok::B(v));
+}
+
+#[no_mangle]
+pub extern "C" fn cg_check_range(p: *const u8, count: usize, size: usize) -> i32 {
+    if count == 0 {
+        return 1;
+    }
+    let bad = match count.checked_mul(size) {
+        None => Some(format!("length {count} x element size {size} overflows")),
+        Some(n) => (GuestMem { trusted: vec![] }).check(p as usize as u64, n).err(),
+    };
+    match bad {
+        None => 1,
+        Some(e) => {
+            h().obs.push(Tok::Bad(format!("pointer/length pair ({:#x}, {count}) received by the guest code is not valid: {e}", p as usize)));
+            0
+        }
+    }
+}
+
+fn host_panicked(where_: &str) {
+    h().protocol_errors.push(format!("the host panicked in {where_} (see stderr)"));
+    if let Some(c) = h().call.as_mut() {
+        c.failed = true;
+    }
 }
 
 #[no_mangle]
@@ -445,9 +480,9 @@ fn anomalies_since(mark: usize) -> Vec<String> {
     ledger().anomalies[mark.min(ledger().anomalies.len())..].to_vec()
 }
 
-fn describe(ps: &BTreeSet<usize>) -> String {
+fn describe(ps: &BTreeSet<BlockId>) -> String {
     let l = ledger();
-    let v: Vec<String> = ps.iter().take(6).map(|p| format!("{:#x}({}B)", p, l.live.get(p).map_or(0, |b| b.size))).collect();
+    let v: Vec<String> = ps.iter().take(6).map(|p| format!("{:#x}({}B)", p.0, l.live.get(&p.0).map_or(0, |b| b.size))).collect();
     format!("{} block(s): {}", ps.len(), v.join(" "))
 }
 
@@ -474,7 +509,7 @@ fn free_helper_leak_sig(fi: usize) -> (String, String, bool) {
 
 /// report a free-helper leak; a leak with a pinned-down static cause does not
 /// stop the rest of the call from being judged (the leftovers are released here)
-fn report_free_helper_leak(fi: usize, what: String, left: &BTreeSet<usize>) {
+fn report_free_helper_leak(fi: usize, what: String, left: &BTreeSet<BlockId>) {
     let (sig, why, tolerate) = free_helper_leak_sig(fi);
     let was_failed = call_failed();
     violation(&sig, &format!("{what}{}{why}", if why.is_empty() { "" } else { " -- static scan of the generated helpers: " }), json!({"left": left.len(), "cause": why}));
@@ -483,8 +518,8 @@ fn report_free_helper_leak(fi: usize, what: String, left: &BTreeSet<usize>) {
             c.failed = false;
         }
         for p in left {
-            if ledger().live.remove(p).is_some() {
-                unsafe { free(*p as *mut c_void) };
+            if ledger().live.remove(&p.0).is_some() {
+                unsafe { free(p.0 as *mut c_void) };
             }
         }
     }
@@ -492,6 +527,16 @@ fn report_free_helper_leak(fi: usize, what: String, left: &BTreeSet<usize>) {
 
 #[no_mangle]
 pub extern "C" fn cg_event(kind: u32, idx: u32) -> i32 {
+    match std::panic::catch_unwind(|| cg_event_inner(kind, idx)) {
+        Ok(r) => r,
+        Err(_) => {
+            host_panicked("cg_event");
+            0
+        }
+    }
+}
+
+fn cg_event_inner(kind: u32, idx: u32) -> i32 {
     let fi = idx as usize;
     if h().call.as_ref().map_or(true, |c| c.fi != fi) {
         h().protocol_errors.push(format!("event {kind} for function {idx} outside its call"));
@@ -519,9 +564,9 @@ pub extern "C" fn cg_event(kind: u32, idx: u32) -> i32 {
                     violation("c-mem:double-free:free-helper", &format!("releasing the arguments of an export with the generated *_free helpers: {}", an.join("; ")), json!({"anomalies": an}));
                 } else {
                     let c = h().call.as_ref().unwrap();
-                    let mut left: BTreeSet<usize> = live_set().intersection(&c.a_blocks).copied().collect();
+                    let mut left: BTreeSet<BlockId> = live_set().intersection(&c.a_blocks).copied().collect();
                     if let Some(p) = c.indirect_area {
-                        left.remove(&p);
+                        left.retain(|x| x.0 != p);
                     }
                     if !left.is_empty() {
                         let what = format!("after the generated *_free helpers released every argument of the export, {} of the arguments are still allocated", describe(&left));
@@ -575,7 +620,7 @@ pub extern "C" fn cg_event(kind: u32, idx: u32) -> i32 {
             let an = anomalies_since(unsafe { ANOMALY_MARK });
             let c = h().call.as_ref().unwrap();
             let now = live_set();
-            let gone: BTreeSet<usize> = c.a_blocks.difference(&now).copied().collect();
+            let gone: BTreeSet<BlockId> = c.a_blocks.difference(&now).copied().collect();
             if !gone.is_empty() || !an.is_empty() {
                 if c11 {
                     violation(
@@ -589,13 +634,13 @@ pub extern "C" fn cg_event(kind: u32, idx: u32) -> i32 {
                 return 0;
             }
             if c11 {
-                let expected: BTreeSet<usize> = c.base.union(&c.a_blocks).copied().chain(c.r_blocks.iter().copied()).collect();
-                let extra: BTreeSet<usize> = now.difference(&expected).copied().collect();
+                let expected: BTreeSet<BlockId> = c.base.union(&c.a_blocks).copied().chain(c.r_blocks.iter().copied()).collect();
+                let extra: BTreeSet<BlockId> = now.difference(&expected).copied().collect();
                 if !extra.is_empty() {
                     violation("c-mem:leak:import-wrapper", &format!("the import binding allocated memory it did not hand to the caller: {}", describe(&extra)), json!({}));
                     return 0;
                 }
-                let lost: BTreeSet<usize> = c.r_blocks.difference(&now).copied().collect();
+                let lost: BTreeSet<BlockId> = c.r_blocks.difference(&now).copied().collect();
                 if !lost.is_empty() {
                     violation("c-mem:result-freed:import-wrapper", &format!("the import binding freed {} block(s) of the result it returns to the caller", lost.len()), json!({}));
                     return 0;
@@ -623,14 +668,14 @@ pub extern "C" fn cg_event(kind: u32, idx: u32) -> i32 {
             if c11 && !call_failed() {
                 let an = anomalies_since(unsafe { ANOMALY_MARK });
                 let c = h().call.as_ref().unwrap();
-                let left: BTreeSet<usize> = live_set().intersection(&c.r_blocks).copied().collect();
+                let left: BTreeSet<BlockId> = live_set().intersection(&c.r_blocks).copied().collect();
                 if !an.is_empty() {
                     violation("c-mem:double-free:free-helper", &format!("freeing an import's result with the generated helper: {}", an.join("; ")), json!({"anomalies": an}));
                 } else if !left.is_empty() {
                     let what = format!("after freeing an import's result with the generated *_free helper {} of the result are still allocated", describe(&left));
                     report_free_helper_leak(fi, what, &left);
                 } else {
-                    let gone: BTreeSet<usize> = c.a_blocks.difference(&live_set()).copied().collect();
+                    let gone: BTreeSet<BlockId> = c.a_blocks.difference(&live_set()).copied().collect();
                     if !gone.is_empty() {
                         violation("c-mem:over-free:free-helper", "freeing an import's result also freed blocks of the arguments", json!({}));
                     }
@@ -642,7 +687,7 @@ pub extern "C" fn cg_event(kind: u32, idx: u32) -> i32 {
             if c11 && !call_failed() {
                 let an = anomalies_since(unsafe { ANOMALY_MARK });
                 let c = h().call.as_ref().unwrap();
-                let left: BTreeSet<usize> = live_set().difference(&c.base).copied().collect();
+                let left: BTreeSet<BlockId> = live_set().difference(&c.base).copied().collect();
                 if !an.is_empty() {
                     violation("c-mem:double-free:free-helper", &format!("freeing import arguments with the generated helpers: {}", an.join("; ")), json!({"anomalies": an}));
                 } else if !left.is_empty() {
@@ -654,7 +699,8 @@ pub extern "C" fn cg_event(kind: u32, idx: u32) -> i32 {
         }
         _ => h().protocol_errors.push(format!("unknown event {kind}")),
     }
-    1
+    // 0 tells the echo machine to stop touching the values of this call
+    (!call_failed()) as i32
 }
 
 fn core_val(t: CoreTy, bits: u64) -> CoreVal {
@@ -664,6 +710,16 @@ fn core_val(t: CoreTy, bits: u64) -> CoreVal {
 /// the core import of function `idx` was called by the generated binding
 #[no_mangle]
 pub unsafe extern "C" fn cg_host_import(idx: u32, args: *const u64, nargs: u32, ret: *mut u64) {
+    let raw: Vec<u64> = (0..nargs as usize).map(|i| *args.add(i)).collect();
+    let mut r: u64 = 0;
+    if std::panic::catch_unwind(std::panic::AssertUnwindSafe(|| cg_host_import_inner(idx, &raw, &mut r))).is_err() {
+        host_panicked("cg_host_import");
+    }
+    *ret = r;
+}
+
+fn cg_host_import_inner(idx: u32, raw: &[u64], ret: &mut u64) {
+    let nargs = raw.len() as u32;
     let fi = idx as usize;
     if h().call.as_ref().map_or(true, |c| c.fi != fi || c.dir != Dir::Import) {
         h().protocol_errors.push(format!("core import {idx} called outside its driver"));
@@ -681,7 +737,6 @@ pub unsafe extern "C" fn cg_host_import(idx: u32, args: *const u64, nargs: u32, 
         inconclusive("core import arity differs from the reference signature");
         return;
     }
-    let raw: Vec<u64> = (0..nargs as usize).map(|i| *args.add(i)).collect();
     let mut mem = GuestMem { trusted: vec![] };
     // ---- lift the parameters
     let lifted: Result<Vec<Val>, String> = (|| {
@@ -695,7 +750,7 @@ pub unsafe extern "C" fn cg_host_import(idx: u32, args: *const u64, nargs: u32, 
             }
         } else {
             let n = if sig.retptr { sig.params.len() - 1 } else { sig.params.len() };
-            let cv: Vec<CoreVal> = sig.params[..n].iter().zip(&raw).map(|(t, b)| core_val(*t, *b)).collect();
+            let cv: Vec<CoreVal> = sig.params[..n].iter().zip(raw.iter()).map(|(t, b)| core_val(*t, *b)).collect();
             let mut it = cv.iter();
             for t in &tys {
                 out.push(a.lift_flat(&mem, &mut it, t)?);
@@ -1174,15 +1229,15 @@ fn run_export(fi: usize, set: u64) {
         let an = anomalies_since(mark);
         let c = h().call.as_ref().unwrap();
         let now = live_set();
-        let left: BTreeSet<usize> = now.intersection(&c.a_blocks).copied().collect();
+        let left: BTreeSet<BlockId> = now.intersection(&c.a_blocks).copied().collect();
         if !an.is_empty() {
             violation("c-mem:double-free:export-wrapper", &format!("during the export call: {}", an.join("; ")), json!({"anomalies": an}));
         } else if !left.is_empty() {
             violation("c-mem:leak:export-wrapper", &format!("after the export returned, {} allocated by the caller for the arguments are still allocated (the callee owns and must free them)", describe(&left)), json!({}));
         } else {
-            let expected: BTreeSet<usize> = c.base.union(&c.r_blocks).copied().collect();
-            let extra: BTreeSet<usize> = now.difference(&expected).copied().collect();
-            let lost: BTreeSet<usize> = c.r_blocks.difference(&now).copied().collect();
+            let expected: BTreeSet<BlockId> = c.base.union(&c.r_blocks).copied().collect();
+            let extra: BTreeSet<BlockId> = now.difference(&expected).copied().collect();
+            let lost: BTreeSet<BlockId> = c.r_blocks.difference(&now).copied().collect();
             if !extra.is_empty() {
                 violation("c-mem:leak:export-wrapper", &format!("the export wrapper allocated {} that nobody owns", describe(&extra)), json!({}));
             } else if !lost.is_empty() {
@@ -1254,12 +1309,12 @@ fn run_export(fi: usize, set: u64) {
     ledger().phase = "idle";
     if c11 && !call_failed() {
         let c = h().call.as_ref().unwrap();
-        let left: BTreeSet<usize> = live_set().difference(&c.base).copied().collect();
+        let left: BTreeSet<BlockId> = live_set().difference(&c.base).copied().collect();
         if !left.is_empty() {
             let sig = if has_post { "c-mem:leak:post-return" } else { "c-mem:leak:post-return-missing" };
             violation(sig, &format!("after post-return {} of the returned value are still allocated ({} result blocks in total)", describe(&left), c.r_blocks.len()), json!({"left": left.len()}));
         }
-        let gone: BTreeSet<usize> = c.base.difference(&live_set()).copied().collect();
+        let gone: BTreeSet<BlockId> = c.base.difference(&live_set()).copied().collect();
         if !gone.is_empty() && !call_failed() {
             violation("c-mem:over-free:post-return", "the call freed blocks that existed before it", json!({}));
         }
@@ -1460,10 +1515,16 @@ pub unsafe extern "C" fn cg_main(argc: i32, argv: *const *const c_char) -> i32 {
             if !enabled[fi] || only_func.map_or(false, |f| f != fi) {
                 continue;
             }
-            if h().funcs[fi].import {
-                run_import(fi, set);
-            } else {
-                run_export(fi, set);
+            let import = h().funcs[fi].import;
+            let r = std::panic::catch_unwind(|| if import { run_import(fi, set) } else { run_export(fi, set) });
+            if r.is_err() {
+                host_panicked("the call driver");
+                if h().call.is_some() {
+                    finish_call();
+                } else {
+                    h().report.inconclusive("harness protocol error");
+                    h().protocol_errors.clear();
+                }
             }
             if h().viol_count >= 8 {
                 break 'outer;
